@@ -38,6 +38,15 @@ def cases(tier, seed):
         for obj, strat, full, shared in itertools.product(["VariationalELBO", "PredictiveLogLikelihood"], ["VariationalStrategy", "UnwhitenedVariationalStrategy"], [False, True], [False, True]):
             yield {"kind": "definition", "objective": obj, "strategy": strat, "lik": "fixed", "beta": rnd.choice([0.5, 1.0]), "priors": "shared" if shared else True, "combine_terms": True,
                    "N": 12, "B": 12 if full else 5, "batch": [], "seed": rnd.randrange(10**6)}
+        # coinciding sizes: as many inducing points as data points / minibatch points / batch elements, single points
+        for obj, strat, lik, (N, B, M, bb) in itertools.product(["VariationalELBO", "PredictiveLogLikelihood"], ["VariationalStrategy", "UnwhitenedVariationalStrategy"], ["gauss", "bernoulli"],
+                                                              [(5, 4, 5, []), (6, 4, 4, []), (3, 2, 2, [2]), (2, 1, 1, []), (3, 2, 3, [3])]):
+            if tier == "quick" and rnd.random() < 0.4:
+                continue
+            yield {"kind": "definition", "objective": obj, "strategy": strat, "lik": lik, "beta": rnd.choice([0.1, 1.0, 3.0]), "priors": rnd.random() < 0.5, "combine_terms": True,
+                   "N": N, "B": B, "M": M, "batch": bb, "seed": rnd.randrange(10**6)}
+        for strat, q, (N, M) in itertools.product(["VariationalStrategy", "UnwhitenedVariationalStrategy"], ["random", "optimal"], [(5, 5), (6, 1), (2, 2)]):
+            yield {"kind": "bound", "strategy": strat, "q": q, "N": N, "M": M, "seed": rnd.randrange(10**6)}
         for obj, wrapper, T, beta in itertools.product(["VariationalELBO", "PredictiveLogLikelihood"], ["indep", "lmc"], [2, 3], [1.0, 0.3]):
             yield {"kind": "definition_mt", "objective": obj, "wrapper": wrapper, "T": T, "beta": beta, "N": rnd.choice([20, 33]), "B": rnd.choice([1, 5, 9]), "seed": rnd.randrange(10**6)}
         for strat, q in itertools.product(["VariationalStrategy", "UnwhitenedVariationalStrategy"], ["random", "tinyS", "hugeS", "farmean", "prior", "optimal"]):
@@ -113,7 +122,16 @@ def _init_flags(m):
 def run_case(case, ctx):
     from vf import util
 
+    global M_
     g = util.gen(case["seed"])
+    M_ = case.get("M", 5)
+    try:
+        return _dispatch(case, ctx, g)
+    finally:
+        M_ = 5
+
+
+def _dispatch(case, ctx, g):
     return {"definition": _definition, "definition_mt": _definition_mt, "bound": _bound, "ngd": _ngd}[case["kind"]](case, ctx, g)
 
 
